@@ -10,6 +10,9 @@
 (*                                  it sees, len(context._buffer_stack),   *)
 (*                                  and whether that Context is the one    *)
 (*                                  created for this thread's render       *)
+(*   memo   th cell key kw          the cache backend was called with kw:  *)
+(*                                  what the thread read from the shared   *)
+(*                                  Cache._def_regions entry of the def    *)
 (*   store_begin / store_end th w n LRUCache.__setitem__ of the collection *)
 (*                                  (w = "coll") or the URI cache ("uric") *)
 (*                                  entered / left with n entries          *)
@@ -47,6 +50,9 @@ Finish(c0) == LET c == IF c0 # "" THEN c0 ELSE InvClause IN
 \* position of the next mark operation of thread t at or after its ip (Len+1 if none)
 RECURSIVE NextMark(_, _)
 NextMark(prog, i) == IF i > Len(prog) THEN i ELSE IF prog[i].op = "mark" THEN i ELSE NextMark(prog, i + 1)
+\* the cache_* arguments the page's cached def declares (they travel in the program's `shared cache` operation)
+CacheOps(p) == SelectSeq(Progs[p], LAMBDA o : o.op = "shared" /\ o.c = "cache")
+CacheKw(p) == IF Len(CacheOps(p)) = 0 THEN <<>> ELSE CacheOps(p)[1].kw
 SameShared == size' = lsize'["coll"] /\ inside' = linside'["coll"] /\ UNCHANGED <<page, ctx, phase, cell>>
 NoLru == UNCHANGED <<lsize, linside>>
 TStep ==
@@ -73,6 +79,8 @@ TStep ==
                      ELSE IF Len(b) # 1 THEN "PrivateStacks:unbalanced"
                      ELSE IF Solo(page[t], ctx[t]) # Traces[tr].solo[t] THEN "solo-output-differs-from-program-meaning"
                      ELSE "")
+     \/ /\ e.ev = "memo" /\ UNCHANGED <<ip, buf, out>> /\ NoLru /\ SameShared       \* what thread t read from a shared memo cell
+        /\ Finish(IF ToSet(e.kw) = ToSet(CacheKw(page[t])) THEN "" ELSE "MemoCompleteWhenVisible:def_regions")
      \/ /\ e.ev = "store_begin" /\ linside' = [linside EXCEPT ![e.w] = @ \cup {t}] /\ UNCHANGED lsize
         /\ UNCHANGED <<ip, buf, out>> /\ SameShared /\ Finish("")
      \/ /\ e.ev = "store_end" /\ linside' = [linside EXCEPT ![e.w] = @ \ {t}] /\ lsize' = [lsize EXCEPT ![e.w] = e.n]
